@@ -61,11 +61,16 @@ STATS = {"cleanup:idle==limit(boundary)": 0, "cleanup:idle>limit": 0, "cleanup:i
 # Seams
 # --------------------------------------------------------------------------- #
 class Clock:
+    """Model time is integral TICKS; the real clock shows ticks / scale seconds.  scale is a power of two, so every
+    timestamp, every difference and every limit is an exact binary fraction: sub-second idle times are exercised
+    without any floating-point rounding (scale 1 = whole seconds)."""
+
     def __init__(self):
         self.now = 0
+        self.scale = 1
 
     def time(self):
-        return float(self.now)
+        return self.now / self.scale
 
 
 class Ids:
@@ -130,8 +135,12 @@ class Obs(Exception):
 
 
 def as_int(x):
-    if isinstance(x, bool) or not isinstance(x, (int, float)) or x != int(x):
-        raise Obs(f"timestamp {x!r} is not integral")
+    """a timestamp read back from the store -> ticks"""
+    if isinstance(x, bool) or not isinstance(x, (int, float)):
+        raise Obs(f"timestamp {x!r} is not a number")
+    x = x * CLOCK.scale
+    if x != int(x):
+        raise Obs(f"timestamp {x!r} ticks is not integral")
     return int(x)
 
 
@@ -261,7 +270,7 @@ def apply_op(w, op):
             raise Obs(f"delete_session returned {r!r}")
         return f"(2 {int(r)})"
     if t == "cleanup":
-        return f"(3 {int(mgr.cleanup_expired(op[1]))})"
+        return f"(3 {int(mgr.cleanup_expired(op[1] if CLOCK.scale == 1 else op[1] / CLOCK.scale))})"
     if t == "list":
         c = mgr.list_sessions()
         out = f"(4 {enc_store(snapshot(c))})"
@@ -300,9 +309,10 @@ def apply_op(w, op):
     raise ValueError(op)
 
 
-def run_history(hist):
-    """hist: list of (now, op).  Returns (encoded steps, error) — one encoded step per operation:
-    (fresh_id now op res post|0)"""
+def run_history(hist, scale=1):
+    """hist: list of (now, op), times and ages in ticks; the real clock shows ticks/scale seconds.
+    Returns (encoded steps, error) — one encoded step per operation: (fresh_id now op res post|0)"""
+    CLOCK.scale = scale
     w = World()
     steps = []
     prev = ()
@@ -434,24 +444,24 @@ def op_json(op):
 
 def check_batch(ctx, batch, model, spec):
     """batch: list of (hist, steps, err, kind)"""
-    lines_m = [call(0, "(" + " ".join(st) + ")") for _h, st, _e, _k in batch]
-    lines_s = [call(2, "(" + " ".join(st) + ")") for _h, st, _e, _k in batch]
+    lines_m = [call(0, "(" + " ".join(st) + ")") for _h, st, _e, _k, _s in batch]
+    lines_s = [call(2, "(" + " ".join(st) + ")") for _h, st, _e, _k, _s in batch]
     mres = model.run(lines_m) if model else [-1] * len(batch)
     sres = spec.run(lines_s)
-    for (hist, steps, err, kind), mi, si in zip(batch, mres, sres):
-        case = {"history": [[t, op_json(op)] for t, op in hist]}
+    for (hist, steps, err, kind, scale), mi, si in zip(batch, mres, sres):
+        case = {"history": [[t, op_json(op)] for t, op in hist], "ticks_per_second": scale}
         ctx.spec_total += 1
         if err is not None:
             ctx.spec_violation("observation-not-expressible:" + err.split(" ")[0], case, err)
             continue
         if si != -1:
             t, op = hist[si]
-            ctx.spec_violation(f"not-a-map:{op[0]}", {"history": case["history"][:si + 1]},
+            ctx.spec_violation(f"not-a-map:{op[0]}", {"history": case["history"][:si + 1], "ticks_per_second": scale},
                                f"step {si} ({op_json(op)} at t={t}) is not what the simple map does: observed {steps[si][:300]}")
         if model and mi != -1:
             t, op = hist[mi]
             mt = model.run([call(1, "(" + " ".join(steps[:mi + 1]) + ")")])[0] if len(ctx.corr_mismatch) < 3 else ["<not fetched>"]
-            ctx.mismatch({"history": case["history"][:mi + 1]}, steps[mi][:400], json.dumps(mt[-1])[:400],
+            ctx.mismatch({"history": case["history"][:mi + 1], "ticks_per_second": scale}, steps[mi][:400], json.dumps(mt[-1])[:400],
                          f"step {mi} ({op[0]}): model != implementation")
 
 
@@ -468,11 +478,12 @@ def explore(ctx, model, spec):
             check_batch(ctx, batch, model, spec)
             batch = []
 
-    def feed(hist, n, kind):
+    def feed(hist, n, kind, scale=1):
         nonlocal boundary
-        steps, err = run_history(hist)
-        batch.append((hist, steps, err, kind))
-        ctx.case({"h": [[t, op_json(op)] for t, op in hist[:n]]}, nontrivial=n > 0)
+        steps, err = run_history(hist, scale)
+        batch.append((hist, steps, err, kind, scale))
+        ctx.case({"h": [[t, op_json(op)] for t, op in hist[:n]], "s": scale}, nontrivial=n > 0)
+        ctx.count(f"clock:ticks-per-second={scale}")
         ctx.count(f"{kind}:len{n if n < 6 else ('6-20' if n <= 20 else ('21-100' if n <= 100 else '101+'))}")
         for t, op in hist[:n]:
             ctx.count("op:" + op[0])
@@ -488,8 +499,8 @@ def explore(ctx, model, spec):
         if n > depth:
             feed(hist, n, "exhaustive-core")
     flush()
-    for hist, n in seeded(ctx, ctx.budget(400, 6000), 200):
-        feed(hist, n, "seeded")
+    for i, (hist, n) in enumerate(seeded(ctx, ctx.budget(400, 6000), 200)):
+        feed(hist, n, "seeded", (1, 2, 4, 8)[i % 4])      # whole seconds, halves, quarters, eighths (exact in binary)
     flush()
     # boundary accounting: replay the spec's `expired` on (now - last == age) cases the exhaustive run is built around
     b = spec.run([call(3, "130", "20", "110"), call(3, "131", "20", "110"), call(3, "130", "20", "111")])
@@ -551,7 +562,7 @@ def replay(ctx, data):
     def tup(x):
         return tuple(x)
     hist = [(t, tup(op)) for t, op in case["history"]]
-    steps, err = run_history(hist)
+    steps, err = run_history(hist, int(case.get("ticks_per_second", 1)))
     for (t, op), s in zip(hist, steps):
         print(f"t={t} {op} -> {s[:160]}")
     if err:
